@@ -198,6 +198,7 @@ pub fn timeout_of(t: Timeout) -> Option<Duration> {
         Timeout::Zero => Some(Duration::ZERO),
         Timeout::Some(ns) => Some(Duration::from_nanos(ns)),
         Timeout::None => None,
+        Timeout::Max => Some(Duration::MAX),
     }
 }
 
@@ -650,6 +651,8 @@ fn check_wait(sim: &Rc<Sim>, t: Timeout, w: &WaitRec, t_start: u64, t_end: u64, 
         Timeout::Zero => Some(0u64),
         Timeout::Some(ns) => Some(ns),
         Timeout::None => None,
+        // the hook sees the requested timeout in nanoseconds, clamped to 64 bits
+        Timeout::Max => Some(u64::MAX),
     };
     let (next, synth) = {
         let st = sim.st.borrow();
@@ -663,7 +666,7 @@ fn check_wait(sim: &Rc<Sim>, t: Timeout, w: &WaitRec, t_start: u64, t_end: u64, 
     if synth {
         expect = Some(0);
     }
-    let ctx = (match t { Timeout::Zero => 0, Timeout::Some(_) => 1, Timeout::None => 2 }) * 10
+    let ctx = (match t { Timeout::Zero => 0, Timeout::Some(_) => 1, Timeout::None => 2, Timeout::Max => 3 }) * 10
         + match (until_timer, user) {
             (None, _) => 0,
             (Some(0), _) => 1,
@@ -894,7 +897,7 @@ fn compute_must(sim: &Sim) {
             }
             K::Sig(k) => {
                 k.pending_at_wait = k.pending;
-                if (0..crate::sig::N_SIG).any(|i| k.pending[i] && k.configured.contains(&(i as u8))) {
+                if (0..crate::sig::N_SIG).any(|i| k.pending[i] != 0 && k.configured.contains(&(i as u8))) {
                     must.insert(*id, Must::Callback);
                 }
             }
